@@ -3,15 +3,21 @@ C03 — driver: replays an implementation trace through the model (correspondenc
 property's monitors on the implementation's own observations.
 
 Sections:
-  begin kind=period quota=<q> period=<p>
-    ft <ms> | take <key> | ctake <key> <m> | down | up
+  begin kind=period quota=<int> period=<int> align=<0|1> nlim=<L>
+    ft <ms> | take <key> | takec <key> <lim> | takex <key> | ctake <key> <m> | cptake <g> <c> <k1,k2,…> | down | up
   begin kind=token rate=<r> burst=<b> ninst=<k>
-    ft <ms> | allow <inst> <now-ns> <n> | callow <now-ns> <n> <m> | down | up
+    ft <ms> | allow|allowc|allowx <inst> <now-ns> <n> | callow <now-ns> <n> <m> | cstorm <now-ns> <n> <g> <c>
+    | cmix <now-ns> <inst:n,inst:n,…> | down | upstore | up | latefail <inst>
+  begin kind=tokenz rate=<int≠0> burst=<int>           (negative arguments; one limiter, store path only)
+    allow <now-ns> <n:int>   => ok|no a=<redisAlive after> tok=<v>:<ttl-ms> ts=<v>:<ttl-ms>
 Observations:
-  take   => <code 0..3> <nil|err|unknowncode> cnt=<v>:<ttl-ms>|cnt=-
+  take…  => <code 0..3> <nil|err|unknowncode|canceled> cnt=<v>:<ttl-ms>|cnt=-  [u=<u0>,<u1> local wall-clock seconds, align only]
   ctake  => sorted codes of m concurrent takes, then cnt=…
-  allow  => ok|no tok=<v>:<ttl-ms>|tok=- ts=<v>:<ttl-ms>|ts=-
+  cptake => per key  <key>=<allowed>:<hit>:<over>:<unknown>:<errors> cnt=…   (g goroutines × c takes, several limiters)
+  allow… => ok|no a=<redisAlive before> s=<redisAlive after><monitorStarted after> tok=<v>:<ttl-ms>|tok=- ts=…
   callow => <number of grants among instances 0..m-1 calling concurrently> <per-instance 0/1 string> tok=… ts=…
+  cstorm => <total grants> <grants per instance, comma separated> s=<flags of every instance> tok=… ts=…
+  cmix   => <decision bit per entry> s=<flags of every instance> tok=… ts=…
   others => ok
 -/
 import GoZero.Base.Trace
@@ -34,6 +40,7 @@ structure PDrv where
   sys  : PSys := PSys.init
   spec : Spec.PSpec := []
   up   : Bool := true
+  win  : List (String × Nat) := []      -- window (seconds) of the running life per key, for the spec monitor
 
 def insertNat (x : Nat) : List Nat → List Nat
   | [] => [x]
@@ -41,11 +48,88 @@ def insertNat (x : Nat) : List Nat → List Nat
 
 def codesStr (l : List Nat) : String := joinSp ((l.foldr insertNat []).map toString)
 
+def setWin (k : String) (w : Nat) : List (String × Nat) → List (String × Nat)
+  | [] => [(k, w)]
+  | (a, v) :: rest => if a = k then (k, w) :: rest else (a, v) :: setWin k w rest
+
+/-- one take on the spec: the life in progress ends after ITS window; a new life gets window `w` -/
+def specTake (quota : Nat) (d : PDrv) (clock : Nat) (k : String) (w : Nat) : PDrv × Code :=
+  let old := (d.win.lookup k).getD 0
+  let sp := Spec.ptake quota old d.spec clock k
+  let started := match Spec.lifeOf k sp.1 with
+    | some l => l.start == clock && l.count == 1
+    | none => false
+  ({ d with spec := sp.1, win := if started then setWin k w d.win else d.win }, sp.2)
+
+/-- tally of replies: allowed, hitQuota, overQuota, unknown, errors -/
+structure Tally where
+  a : Nat := 0
+  h : Nat := 0
+  o : Nat := 0
+  u : Nat := 0
+  e : Nat := 0
+  deriving DecidableEq
+
+def Tally.add (t : Tally) (c : Code) (err : Bool) : Tally :=
+  let t := match c with
+    | .allowed => { t with a := t.a + 1 } | .hitQuota => { t with h := t.h + 1 }
+    | .overQuota => { t with o := t.o + 1 } | .unknown => { t with u := t.u + 1 }
+  if err then { t with e := t.e + 1 } else t
+
+def Tally.str (t : Tally) : String := s!"{t.a}:{t.h}:{t.o}:{t.u}:{t.e}"
+
+/-- `u=<u0>,<u1>` of an aligned observation: the local wall-clock seconds before and after the call -/
+def parseU (obs : List String) : Option (Int × Int) :=
+  match kv? obs "u" with
+  | some v =>
+    match v.splitOn "," with
+    | [a, b] => match a.toInt?, b.toInt? with
+      | some a, some b => some (a, b)
+      | _, _ => none
+    | _ => none
+  | none => none
+
+/-- ttl in ms of a `cnt=<v>:<ttl>` token; `cnt=-` ⇒ none -/
+def cntTtl (tok : String) : Option Nat :=
+  match tok.splitOn ":" with
+  | [_, t] => t.toNat?
+  | _ => none
+
+/-- The window `calcExpireSeconds()` hands to the script for the next take.
+`inl w` = window in seconds as Redis treats it (`≤ 0` ⇒ 0), `inr msg` = correspondence broken, `none` = the call panics.
+Without `Align()` it is `period`; with it, it depends on the wall clock the code reads itself, so the window is
+taken from the observation (TTL of the counter right after a take that created it) and must be
+`calcExpireZ true period u` for a second `u` between the two clock readings of the harness. -/
+def windowFor (align : Bool) (period : Int) (fresh : Bool) (obs : List String) (cntTok : String) : Option (Nat ⊕ String) :=
+  match calcExpireZ align period 0 with
+  | none => none
+  | some _ =>
+    if !align then some (.inl period.toNat)
+    else match parseU obs with
+      | none => some (.inr "aligned take without u=<u0>,<u1>")
+      | some (u0, u1) =>
+        if u1 < u0 || u1 - u0 > 5 then some (.inr s!"wall clock moved from {u0} to {u1} during one call")
+        else
+          let cands := (List.range ((u1 - u0).toNat + 1)).filterMap fun (i : Nat) => (calcExpireZ true period (u0 + (i : Int))).map Int.toNat
+          if !fresh then some (.inl (cands.headD 0))
+          else
+            let seen : Nat := match cntTtl cntTok with
+              | some ms => ms / 1000
+              | none => 0
+            if cands.contains seen then some (.inl seen)
+            else some (.inr s!"window {seen}s is not period - (unix % period) for unix in [{u0},{u1}] (period={period})")
+
 def runPeriod (r : Report) (s : Section) : Report := Id.run do
-  let quota := kvNat s.cfg "quota" 1
-  let period := kvNat s.cfg "period" 1
+  let quotaZ := kvInt s.cfg "quota" 1
+  let periodZ := kvInt s.cfg "period" 1
+  let align := kvNat s.cfg "align" 0 == 1
+  let quota := quotaZ.toNat
   let mut d : PDrv := {}
   let mut r := r
+  if quotaZ ≤ 0 then r := r.addCover "p-sec-quota-nonpositive"
+  if periodZ ≤ 0 then r := r.addCover "p-sec-period-nonpositive"
+  if align then r := r.addCover "p-sec-align"
+  if kvNat s.cfg "nlim" 1 > 1 then r := r.addCover "p-sec-several-limiters"
   for l in s.lines do
     r := { r with ops := r.ops + 1 }
     let impl := joinSp l.obs
@@ -53,63 +137,148 @@ def runPeriod (r : Report) (s : Section) : Report := Id.run do
     | ["ft", ms] =>
       match ms.toNat? with
       | some ms =>
-        d := { d with sys := (d.sys.step quota period (.ft ms)).1 }
+        d := { d with sys := (d.sys.step quota 0 (.ft ms)).1 }
         r := r.addCover "p-ft"
         if impl ≠ "ok" then r := r.mismatch s.idx l.idx "ok" impl
       | none => r := r.mismatch s.idx l.idx "bad-op" (joinSp l.op)
     | ["down"] =>
-      d := { d with sys := (d.sys.step quota period .down).1, up := false }
+      d := { d with sys := (d.sys.step quota 0 .down).1, up := false }
       r := r.addCover "p-down"
       if impl ≠ "ok" then r := r.mismatch s.idx l.idx "ok" impl
     | ["up"] =>
-      d := { d with sys := (d.sys.step quota period .up).1, up := true }
+      d := { d with sys := (d.sys.step quota 0 .up).1, up := true }
       r := r.addCover "p-up"
       if impl ≠ "ok" then r := r.mismatch s.idx l.idx "ok" impl
-    | ["take", k] =>
+    | "takex" :: k :: _ =>
+      if (calcExpireZ align periodZ 0).isNone then
+        -- the window is computed before the script call: `unix % 0` panics whatever the context or the store
+        r := r.addCover "p-align-period-zero-panics"
+        if !(l.obs.headD "" == "PANIC" && l.obs.contains "divide") then
+          r := r.mismatch s.idx l.idx "PANIC runtime error: integer divide by zero" impl
+        continue
+      -- cancelled context: (Unknown, context.Canceled), the store is not touched
+      r := r.addCover "p-take-cancelled"
+      let model := s!"0 canceled {dumpKey d.sys.store "cnt" k}"
+      let implCmp := joinSp (l.obs.take 3)
+      if model ≠ implCmp then r := r.mismatch s.idx l.idx model implCmp
+      if l.obs.headD "?" ≠ "0" || (l.obs.drop 1).headD "nil" = "nil" then
+        r := r.violation s.idx l.idx s!"period: cancelled take {k} answered [{joinSp (l.obs.take 2)}] (must be Unknown + error)"
+    | "take" :: k :: _ | "takec" :: k :: _ =>
       let clock := d.sys.store.clock
       let fresh := (d.sys.store.get k).isNone
-      let res := d.sys.take quota period k
-      d := { d with sys := res.1 }
-      let model := s!"{res.2.1.toNat} {res.2.2.str} {dumpKey d.sys.store "cnt" k}"
-      if model ≠ impl then r := r.mismatch s.idx l.idx model impl
-      -- monitor on the implementation's observation
-      let obsCode := (l.obs.headD "?")
-      let obsErr := (l.obs.drop 1).headD "?"
-      if d.up then
-        let sp := Spec.ptake quota period d.spec clock k
-        d := { d with spec := sp.1 }
-        r := r.addCover (match sp.2 with
+      if (calcExpireZ align periodZ 0).isNone then
+        r := r.addCover "p-align-period-zero-panics"
+        if !(l.obs.headD "" == "PANIC" && l.obs.contains "divide") then
+          r := r.mismatch s.idx l.idx "PANIC runtime error: integer divide by zero" impl
+      else if !d.up then
+        let res := d.sys.take quota 0 k
+        let model := s!"{res.2.1.toNat} {res.2.2.str} {dumpKey d.sys.store "cnt" k}"
+        let implCmp := joinSp (l.obs.take 3)
+        if model ≠ implCmp then r := r.mismatch s.idx l.idx model implCmp
+        r := r.addCover "p-take-while-down"
+        let obsCode := (l.obs.headD "?")
+        let obsErr := (l.obs.drop 1).headD "?"
+        if obsCode ≠ "0" || obsErr = "nil" then
+          r := r.violation s.idx l.idx s!"period: store unreachable but take {k} answered [{obsCode} {obsErr}] (must be Unknown + error)"
+      else
+      match windowFor align periodZ fresh l.obs ((l.obs.drop 2).headD "") with
+      | none =>
+        r := r.addCover "p-align-period-zero-panics"
+        if !(l.obs.headD "" == "PANIC" && l.obs.contains "divide") then
+          r := r.mismatch s.idx l.idx "PANIC runtime error: integer divide by zero" impl
+      | some (.inr msg) => r := r.mismatch s.idx l.idx msg impl
+      | some (.inl w) =>
+        let res := d.sys.take quota w k
+        d := { d with sys := res.1 }
+        let model := s!"{res.2.1.toNat} {res.2.2.str} {dumpKey d.sys.store "cnt" k}"
+        let implCmp := joinSp (l.obs.take 3)
+        if model ≠ implCmp then r := r.mismatch s.idx l.idx model implCmp
+        -- monitor on the implementation's observation
+        let obsCode := (l.obs.headD "?")
+        let obsErr := (l.obs.drop 1).headD "?"
+        let (d', code) := specTake quota d clock k w
+        d := d'
+        r := r.addCover (match code with
           | .allowed => if fresh then "p-allowed-first" else "p-allowed"
           | .hitQuota => "p-hitquota" | .overQuota => "p-overquota" | .unknown => "p-unknown")
         if fresh && clock > 0 then r := r.addCover "p-new-life-after-expiry"
-        if obsCode ≠ toString sp.2.toNat || obsErr ≠ "nil" then
-          r := r.violation s.idx l.idx s!"period: take {k} quota={quota} period={period} spec=[{sp.2.toNat} nil] impl=[{obsCode} {obsErr}]"
-      else
-        r := r.addCover "p-take-while-down"
-        if obsCode ≠ "0" || obsErr = "nil" then
-          r := r.violation s.idx l.idx s!"period: store unreachable but take {k} answered [{obsCode} {obsErr}] (must be Unknown + error)"
+        if align && fresh then r := r.addCover (if w = periodZ.toNat then "p-align-window-full" else "p-align-window-short")
+        if obsCode ≠ toString code.toNat || obsErr ≠ "nil" then
+          r := r.violation s.idx l.idx s!"period: take {k} quota={quotaZ} period={periodZ} spec=[{code.toNat} nil] impl=[{obsCode} {obsErr}]"
     | ["ctake", k, m] =>
       match m.toNat? with
       | none => r := r.mismatch s.idx l.idx "bad-op" (joinSp l.op)
       | some m =>
         let clock := d.sys.store.clock
-        let mut codes : List Nat := []
-        let mut specCodes : List Nat := []
-        for _ in [0:m] do
-          let res := d.sys.take quota period k
-          d := { d with sys := res.1 }
-          codes := res.2.1.toNat :: codes
-          if d.up then
-            let sp := Spec.ptake quota period d.spec clock k
-            d := { d with spec := sp.1 }
-            specCodes := sp.2.toNat :: specCodes
-          else specCodes := 0 :: specCodes
-        r := r.addCover "p-ctake"
-        let model := s!"{codesStr codes} {dumpKey d.sys.store "cnt" k}"
-        if model ≠ impl then r := r.mismatch s.idx l.idx model impl
-        let obsCodes := joinSp (l.obs.take m)
-        if obsCodes ≠ codesStr specCodes then
-          r := r.violation s.idx l.idx s!"period: {m} concurrent takes on {k} quota={quota} spec=[{codesStr specCodes}] impl=[{obsCodes}]"
+        let fresh := (d.sys.store.get k).isNone
+        match (if d.up then windowFor align periodZ fresh l.obs ((l.obs.drop m).headD "") else some (.inl 0)) with
+        | none => r := r.mismatch s.idx l.idx "no concurrent op in a section whose takes panic" impl
+        | some (.inr msg) => r := r.mismatch s.idx l.idx msg impl
+        | some (.inl w) =>
+          let mut codes : List Nat := []
+          let mut specCodes : List Nat := []
+          for _ in [0:m] do
+            let res := d.sys.take quota w k
+            d := { d with sys := res.1 }
+            codes := res.2.1.toNat :: codes
+            if d.up then
+              let (d', code) := specTake quota d clock k w
+              d := d'
+              specCodes := code.toNat :: specCodes
+            else specCodes := 0 :: specCodes
+          r := r.addCover "p-ctake"
+          if m > 8 then r := r.addCover "p-ctake-many"
+          let model := s!"{codesStr codes} {dumpKey d.sys.store "cnt" k}"
+          let implCmp := joinSp (l.obs.take (m + 1))
+          if model ≠ implCmp then r := r.mismatch s.idx l.idx model implCmp
+          let obsCodes := joinSp (l.obs.take m)
+          if obsCodes ≠ codesStr specCodes then
+            r := r.violation s.idx l.idx s!"period: {m} concurrent takes on {k} quota={quotaZ} spec=[{codesStr specCodes}] impl=[{obsCodes}]"
+    | ["cptake", g, c, ks] =>
+      match g.toNat?, c.toNat? with
+      | some g, some c =>
+        let keys := ks.splitOn ","
+        let nk := keys.length
+        let clock := d.sys.store.clock
+        r := r.addCover "p-cptake"
+        if nk > 1 then r := r.addCover "p-cptake-several-keys"
+        if !d.up then r := r.addCover "p-cptake-while-down"
+        let mut modelParts : List String := []
+        let mut ki := 0
+        let mut bad : Option String := none
+        for k in keys do
+          -- goroutines j < g with j % nk = ki, c takes each
+          let cnt := ((List.range g).filter fun j => j % nk == ki).length * c
+          let fresh := (d.sys.store.get k).isNone && cnt > 0
+          let cntTok := (l.obs.drop (2 * ki + 1)).headD ""
+          match (if d.up then windowFor align periodZ fresh l.obs cntTok else some (.inl 0)) with
+          | none => bad := some "no concurrent op in a section whose takes panic"
+          | some (.inr msg) => bad := some msg
+          | some (.inl w) =>
+            let mut tm : Tally := {}
+            let mut ts : Tally := {}
+            for _ in [0:cnt] do
+              let res := d.sys.take quota w k
+              d := { d with sys := res.1 }
+              tm := tm.add res.2.1 (res.2.2 ≠ .nil)
+              if d.up then
+                let (d', code) := specTake quota d clock k w
+                d := d'
+                ts := ts.add code false
+              else ts := ts.add .unknown true
+            modelParts := modelParts ++ [s!"{k}={tm.str}", dumpKey d.sys.store "cnt" k]
+            if cnt > quota then r := r.addCover "p-cptake-over-quota"
+            let obsT := (l.obs.drop (2 * ki)).headD ""
+            if obsT ≠ s!"{k}={ts.str}" then
+              r := r.violation s.idx l.idx s!"period: {cnt} concurrent takes on {k} (goroutines x takes, several limiters) quota={quotaZ} period={periodZ}: spec allowed:hit:over:unknown:errors=[{ts.str}] impl=[{obsT}]"
+          ki := ki + 1
+        match bad with
+        | some msg => r := r.mismatch s.idx l.idx msg impl
+        | none =>
+          let model := joinSp modelParts
+          let implCmp := joinSp (l.obs.take (2 * nk))
+          if model ≠ implCmp then r := r.mismatch s.idx l.idx model implCmp
+      | _, _ => r := r.mismatch s.idx l.idx "bad-op" (joinSp l.op)
     | _ => r := r.mismatch s.idx l.idx "bad-op" (joinSp l.op)
   return r
 
@@ -124,8 +293,17 @@ structure TDrv where
   hist    : List (Nat × Nat) := []     -- (store clock ms, caller second) of earlier allow ops
   hypOk   : Bool := true
   up      : Bool := true
+  rlast   : Nat → Nat := fun _ => 0    -- `now` (ns) of the latest locally decided request, per instance
+  rmono   : Nat → Bool := fun _ => true -- hypothesis of rescue_local_bound: those `now`s never went backwards
 
 def tokDump (c : TCfg) (s : Store) : String := s!"{dumpKey s "tok" c.k1} {dumpKey s "ts" c.k2}"
+
+def b2s (b : Bool) : String := if b then "1" else "0"
+
+def instFlags (i : Inst) : String := s!"{b2s i.alive}{b2s i.monitor}"
+
+def allFlags (s : Sys) (ninst : Nat) : String :=
+  "s=" ++ String.join ((List.range ninst).map fun i => instFlags (s.insts i))
 
 /-- the timing hypothesis of the token theorems, checked on the op list: caller seconds are monotone and
 whenever the store clock moved a full ttl since an earlier request, the caller's second moved a full ttl too. -/
@@ -133,7 +311,7 @@ def timedOk (ttl : Nat) (hist : List (Nat × Nat)) (clock sec : Nat) : Bool :=
   hist.all fun (c, m) => decide (m ≤ sec) && (decide (clock - c < ttl * 1000) || decide (ttl ≤ sec - m))
 
 /-- one `allow`: model step (with the float boundary of the rescue limiter followed from the observation),
-then the monitors. Returns the model's decision string ("ok"/"no"). -/
+then the monitors. Returns the model's decision, the deciding bucket, whether the float boundary was taken. -/
 def tokAllow (c : TCfg) (d : TDrv) (i ns n : Nat) (implOk : Option Bool) : TDrv × Bool × Route × Bool :=
   let inst := d.sys.insts i
   let res := d.sys.reserveN true c i ns n
@@ -149,6 +327,34 @@ def tokAllow (c : TCfg) (d : TDrv) (i ns n : Nat) (implOk : Option Bool) : TDrv 
     else ({ d with sys := res.1 }, res.2.ok, res.2.route, false)
   | _ => ({ d with sys := res.1 }, res.2.ok, res.2.route, false)
 
+/-- all orders of a short list -/
+def perms {α : Type} : List α → List (List α)
+  | [] => [[]]
+  | x :: xs => (perms xs).flatMap fun p => (List.range (p.length + 1)).map fun i => p.take i ++ [x] ++ p.drop i
+
+/-- a request decided locally by instance `i` at `ns` (granted or not): monotonicity bookkeeping -/
+def noteRescue (d : TDrv) (i ns : Nat) : TDrv :=
+  let ok := d.rmono i && decide (d.rlast i ≤ ns)
+  { d with rmono := (fun j => if j = i then ok else d.rmono j), rlast := (fun j => if j = i then max ns (d.rlast i) else d.rlast j) }
+
+/-- a granted request of size `n` decided locally by instance `i` at `ns`: the local meter -/
+def localGrant (c : TCfg) (burst rate : Nat) (r : Report) (s : Section) (l : Line) (d : TDrv) (i ns n : Nat) : TDrv × Report :=
+  if c.ival = 0 || !d.rmono i then (d, r) else
+  let m := (d.local_ i).add 1 ns (n * c.ival)
+  let d := { d with local_ := fun j => if j = i then m else d.local_ j }
+  if m.level > burst * c.ival + d.slack i then
+    (d, r.violation s.idx l.idx s!"token: instance {i} alone exceeds burst + L*elapsed with its local limiter (rate={rate} burst={burst} ival={c.ival}ns): {m.level} > {burst * c.ival}")
+  else (d, r)
+
+/-- `g` tokens granted jointly by the store at second `sec`: the joint meter -/
+def jointGrant (burst rate : Nat) (r : Report) (s : Section) (l : Line) (d : TDrv) (sec g : Nat) : TDrv × Report :=
+  if g = 0 then (d, r) else
+  let m := d.joint.add rate sec g
+  let d := { d with joint := m }
+  if m.level > burst then
+    (d, r.violation s.idx l.idx s!"token: joint grants exceed burst + rate*elapsed (rate={rate} burst={burst}): excess level {m.level} > {burst} at now={sec}")
+  else (d, r)
+
 def runToken (r : Report) (s : Section) : Report := Id.run do
   let rate := kvNat s.cfg "rate" 1
   let burst := kvNat s.cfg "burst" 1
@@ -158,10 +364,18 @@ def runToken (r : Report) (s : Section) : Report := Id.run do
   let mut d : TDrv := { sys := Sys.init c, bucket := Spec.Bucket.init burst }
   let mut r := r
   let mut abandoned := false
+  if burst = 0 then r := r.addCover "t-sec-burst-zero"
+  if ninst > 1 then r := r.addCover "t-sec-several-instances"
   for l in s.lines do
     if abandoned then continue
     r := { r with ops := r.ops + 1 }
     let impl := joinSp l.obs
+    if rate = 0 then
+      -- NewTokenLimiter computes time.Second/time.Duration(rate): integer divide by zero, no limiter exists
+      r := r.addCover "t-new-panics-rate-zero"
+      if !(l.obs.headD "" == "newpanic" && (impl.splitOn "divide").length > 1) then
+        r := r.mismatch s.idx l.idx "newpanic runtime-error:-integer-divide-by-zero" impl
+      continue
     match l.op with
     | ["ft", ms] =>
       match ms.toNat? with
@@ -174,6 +388,35 @@ def runToken (r : Report) (s : Section) : Report := Id.run do
       d := { d with sys := (d.sys.step true c .down).1, up := false }
       r := r.addCover "t-down"
       if impl ≠ "ok" then r := r.mismatch s.idx l.idx "ok" impl
+    | ["upstore"] =>
+      -- scripts are served again, no ping has succeeded yet: no pingOk / monExit event
+      d := { d with sys := (d.sys.step true c .up).1, up := true }
+      r := r.addCover "t-upstore"
+      if (List.range ninst).any fun i => !(d.sys.insts i).alive then r := r.addCover "t-upstore-some-instance-in-rescue"
+      if impl ≠ "ok" then r := r.mismatch s.idx l.idx "ok" impl
+    | ["latefail", i] =>
+      match i.toNat? with
+      | some i =>
+        -- store reachable; the monitor of instance i has stored redisAlive=1 (pingOk), a late failure reaches
+        -- startMonitor before the deferred monitorStarted=false (monExit); whatever was started is then waited for
+        let inWindow := !(d.sys.insts i).alive && (d.sys.insts i).monitor
+        let mut sys := (d.sys.step true c .up).1
+        sys := (sys.step true c (.pingOk i)).1
+        sys := (sys.step true c (.lateFail i)).1
+        for _ in [0:2] do
+          for j in [0:ninst] do
+            sys := (sys.step true c (.pingOk j)).1
+            sys := (sys.step true c (.monExit j)).1
+        d := { d with sys := sys, up := true }
+        r := r.addCover (if inWindow then "t-latefail-in-monitor-window" else "t-latefail-plain")
+        if l.obs.headD "" = "TIMEOUT-monitor" then
+          r := r.addCover "t-up-timeout-section-abandoned"
+          abandoned := true
+        else
+          if impl ≠ "ok" then r := r.mismatch s.idx l.idx "ok" impl
+          if l.obs.headD "" = "STUCK" then
+            r := r.violation s.idx l.idx s!"token: the store is reachable and no request has failed since, yet an instance stays on its local limiter for ever: {joinSp (l.obs.drop 1)} (no monitor goroutine will set redisAlive again) after a late failure reached startMonitor between the monitor's redisAlive=1 and its deferred monitorStarted=false"
+      | none => r := r.mismatch s.idx l.idx "bad-op" (joinSp l.op)
     | ["up"] =>
       let mut sys := (d.sys.step true c .up).1
       for i in [0:ninst] do
@@ -181,16 +424,87 @@ def runToken (r : Report) (s : Section) : Report := Id.run do
         sys := (sys.step true c (.monExit i)).1
       d := { d with sys := sys, up := true }
       r := r.addCover "t-up"
-      if impl = "TIMEOUT-monitor" then
+      if l.obs.headD "" = "TIMEOUT-monitor" then
         -- the real 100 ms ping goroutine did not bring every instance back within the harness' (generous)
         -- real-time bound: recovery latency is not part of the property and depends on machine load, so
         -- the rest of this section cannot be compared; `driver` reports it if it happens more than once
         r := r.addCover "t-up-timeout-section-abandoned"
         abandoned := true
-      else if impl ≠ "ok" then r := r.mismatch s.idx l.idx "ok" impl
-    | ["allow", i, ns, n] =>
-      match i.toNat?, ns.toNat?, n.toNat? with
-      | some i, some ns, some n =>
+      else
+        if impl ≠ "ok" then r := r.mismatch s.idx l.idx "ok" impl
+        if l.obs.headD "" = "STUCK" then
+          r := r.violation s.idx l.idx s!"token: the store is reachable and no request has failed since, yet an instance stays on its local limiter for ever: {joinSp (l.obs.drop 1)} (no monitor goroutine will set redisAlive again)"
+    | ["callow", ns, n, m] =>
+      match ns.toNat?, n.toNat?, m.toNat? with
+      | some ns, some n, some m =>
+        let sec := ns / nsPerSec
+        let clock := d.sys.store.clock
+        if d.hypOk && !timedOk ttl d.hist clock sec then
+          d := { d with hypOk := false }
+          r := r.addCover "t-hyp-broken"
+        d := { d with hist := (clock, sec) :: d.hist }
+        let obsBits := ((l.obs.drop 1).headD "").toList
+        let mut grants := 0
+        let mut bits := ""
+        let mut storeIdx : List Nat := []
+        for i in [0:m] do
+          -- an instance on its local limiter decides alone: its own observed decision is compared (and
+          -- followed at the float boundary); the calls that reach the store are serialised by the store in a
+          -- schedule-dependent order, so only the number of grants among them is determined
+          let implOk : Option Bool := match obsBits[i]? with
+            | some '1' => some true
+            | some '0' => some false
+            | _ => none
+          let (d', mOk, route, bnd) := tokAllow c d i ns n implOk
+          d := d'
+          if bnd then
+            r := r.addCover "t-rescue-float-boundary"
+            d := { d with slack := fun j => if j = i then d.slack i + 1 else d.slack j }
+          if mOk then grants := grants + 1
+          if route = .store then
+            storeIdx := storeIdx ++ [i]
+            bits := bits ++ "*"
+          else
+            bits := bits ++ (if mOk then "1" else "0")
+            d := noteRescue d i ns
+            if implOk = some true then
+              let (d', r') := localGrant c burst rate r s l d i ns n
+              d := d'; r := r'
+        r := r.addCover "t-callow"
+        let implBits := String.ofList ((List.range obsBits.length).map fun i =>
+          if storeIdx.contains i then '*' else obsBits[i]?.getD '?')
+        let model := s!"{grants} {bits} {tokDump c d.sys.store}"
+        let implCmp := joinSp (l.obs.take 1 ++ [implBits] ++ l.obs.drop 2)
+        if model ≠ implCmp then r := r.mismatch s.idx l.idx model implCmp
+        if d.hypOk && storeIdx.length > 0 then
+          if storeIdx.length = m then r := r.addCover "t-callow-store"
+          let mut specGrants := 0
+          for _ in storeIdx do
+            let sp := d.bucket.allow rate burst sec n
+            d := { d with bucket := sp.1 }
+            if sp.2 then specGrants := specGrants + 1
+          let obsG := (storeIdx.filter fun i => obsBits[i]? == some '1').length
+          if obsG ≠ specGrants then
+            r := r.violation s.idx l.idx s!"token: {storeIdx.length} concurrent requests n={n} now={sec} rate={rate} burst={burst}: spec grants {specGrants}, impl grants [{obsG}]"
+          let (d', r') := jointGrant burst rate r s l d sec (obsG * n)
+          d := d'; r := r'
+      | _, _, _ => r := r.mismatch s.idx l.idx "bad-op" (joinSp l.op)
+    | [verb, i, ns, n] =>
+      match (verb == "allow" || verb == "allowc" || verb == "allowx"), i.toNat?, ns.toNat?, n.toNat? with
+      | true, some i, some ns, some n =>
+        if verb == "allowx" && (d.sys.insts i).alive then
+          -- cancelled context, instance on the store path: the script call fails with the context's error,
+          -- `return false`; neither the store nor the flags nor the local limiter are touched
+          d := { d with sys := (d.sys.step true c (.cancelledAlive i ns n)).1 }
+          let inst := d.sys.insts i
+          r := r.addCover "t-allow-cancelled"
+          let model := s!"no a={b2s inst.alive} s={instFlags inst} {tokDump c d.sys.store}"
+          if model ≠ impl then r := r.mismatch s.idx l.idx model impl
+          if l.obs.headD "?" ≠ "no" then
+            r := r.violation s.idx l.idx s!"token: request with a cancelled context was answered [{l.obs.headD "?"}] (must be refused)"
+          continue
+        -- (an instance in rescue mode never looks at the context: a cancelled call is an ordinary one)
+        if verb == "allowx" then r := r.addCover "t-allow-cancelled-in-rescue-mode"
         let sec := ns / nsPerSec
         let clock := d.sys.store.clock
         let obsOk := l.obs.headD "?"
@@ -201,12 +515,13 @@ def runToken (r : Report) (s : Section) : Report := Id.run do
           r := r.addCover "t-hyp-broken"
         d := { d with hist := (clock, sec) :: d.hist }
         let keysLive := (d.sys.store.get c.k1).isSome
+        let aliveBefore := (d.sys.insts i).alive
         let (d', mOk, route, bnd) := tokAllow c d i ns n implOk
         d := d'
         if bnd then
           r := r.addCover "t-rescue-float-boundary"
           d := { d with slack := fun j => if j = i then d.slack i + 1 else d.slack j }
-        let model := s!"{if mOk then "ok" else "no"} {tokDump c d.sys.store}"
+        let model := s!"{if mOk then "ok" else "no"} a={b2s aliveBefore} s={instFlags (d.sys.insts i)} {tokDump c d.sys.store}"
         if model ≠ impl then r := r.mismatch s.idx l.idx model impl
         r := r.addCover (match route, mOk with
           | .store, true => "t-store-grant" | .store, false => "t-store-deny"
@@ -214,83 +529,199 @@ def runToken (r : Report) (s : Section) : Report := Id.run do
         if route = .store && !keysLive && clock > 0 then r := r.addCover "t-store-after-expiry"
         if n = 0 then r := r.addCover "t-n-zero"
         if n > burst then r := r.addCover "t-n-over-burst"
+        if d.up && route = .rescue then r := r.addCover "t-rescue-while-store-up"
+        if d.up && route = .store && ((List.range ninst).any fun j => !(d.sys.insts j).alive) then
+          r := r.addCover "t-store-while-other-instance-in-rescue"
+        if !d.up then r := r.addCover "t-allow-while-down"
+        if route = .rescue then d := noteRescue d i ns
         -- monitors on the implementation's observation
         match implOk with
         | none => r := r.violation s.idx l.idx s!"token: unreadable decision [{impl}]"
         | some ok =>
-          if d.hypOk then
-            if d.up then
-              -- reachable store: all instances are ONE bucket
+          if route = .store then
+            if d.hypOk then
+              -- decided by the shared store: all instances are ONE bucket
               let sp := d.bucket.allow rate burst sec n
               d := { d with bucket := sp.1 }
               if sp.2 ≠ ok then
                 r := r.violation s.idx l.idx s!"token: joint bucket rate={rate} burst={burst} inst={i} now={sec} n={n} spec=[{if sp.2 then "ok" else "no"}] impl=[{obsOk}]"
               if ok then
-                let m := d.joint.add rate sec n
-                d := { d with joint := m }
-                if m.level > burst then
-                  r := r.violation s.idx l.idx s!"token: joint grants exceed burst + rate*elapsed (rate={rate} burst={burst}): excess level {m.level} > {burst} at now={sec}"
-            else
-              r := r.addCover "t-allow-while-down"
-              if ok && c.ival ≠ 0 then
-                let m := (d.local_ i).add 1 ns (n * c.ival)
-                d := { d with local_ := fun j => if j = i then m else d.local_ j }
-                if m.level > burst * c.ival + d.slack i then
-                  r := r.violation s.idx l.idx s!"token: instance {i} alone exceeds burst + L*elapsed while the store is unreachable (rate={rate} burst={burst} ival={c.ival}ns): {m.level} > {burst * c.ival}"
-      | _, _, _ => r := r.mismatch s.idx l.idx "bad-op" (joinSp l.op)
-    | ["callow", ns, n, m] =>
-      match ns.toNat?, n.toNat?, m.toNat? with
-      | some ns, some n, some m =>
+                let (d', r') := jointGrant burst rate r s l d sec n
+                d := d'; r := r'
+          else if ok then
+            let (d', r') := localGrant c burst rate r s l d i ns n
+            d := d'; r := r'
+      | _, _, _, _ => r := r.mismatch s.idx l.idx "bad-op" (joinSp l.op)
+    | ["cstorm", ns, n, g, cc] =>
+      match ns.toNat?, n.toNat?, g.toNat?, cc.toNat? with
+      | some ns, some n, some g, some cc =>
         let sec := ns / nsPerSec
         let clock := d.sys.store.clock
         if d.hypOk && !timedOk ttl d.hist clock sec then
           d := { d with hypOk := false }
           r := r.addCover "t-hyp-broken"
         d := { d with hist := (clock, sec) :: d.hist }
-        let mut grants := 0
-        let mut specGrants := 0
-        let mut allStore := true
-        let mut bits := ""
-        let obsBits := ((l.obs.drop 1).headD "").toList
-        for i in [0:m] do
-          -- while the store is unreachable every instance decides alone: its own observed decision is
-          -- compared (and followed at the float boundary); on the store path the calls are serialised
-          -- by the store in a schedule-dependent order, so only the number of grants is determined
-          let implOk : Option Bool :=
-            if d.up then none else match obsBits[i]? with
-              | some '1' => some true
-              | some '0' => some false
-              | _ => none
-          let (d', mOk, route, bnd) := tokAllow c d i ns n implOk
-          d := d'
-          if bnd then
-            r := r.addCover "t-rescue-float-boundary"
-            d := { d with slack := fun j => if j = i then d.slack i + 1 else d.slack j }
-          if mOk then grants := grants + 1
-          bits := bits ++ (if mOk then "1" else "0")
-          if route ≠ .store then allStore := false
-          if d.up then
+        let implPer : List Nat := (((l.obs.drop 1).headD "").splitOn ",").map fun x => x.toNat?.getD 0
+        r := r.addCover "t-cstorm"
+        if g > ninst then r := r.addCover "t-cstorm-goroutines-share-an-instance"
+        let mut per : List Nat := []            -- model grants per instance
+        let mut storeInst : List Nat := []      -- instances whose calls reach the store
+        let mut storeCalls := 0
+        for i in [0:ninst] do
+          let calls := ((List.range g).filter fun j => j % ninst == i).length * cc
+          let implG := implPer[i]?.getD 0
+          let mut gi := 0
+          let mut isStore := false
+          for k in [0:calls] do
+            -- all calls carry the same (now, n): a local limiter grants a prefix of them
+            let (d', mOk, route, bnd) := tokAllow c d i ns n (some (decide (k < implG)))
+            d := d'
+            if bnd then
+              r := r.addCover "t-rescue-float-boundary"
+              d := { d with slack := fun j => if j = i then d.slack i + 1 else d.slack j }
+            if mOk then gi := gi + 1
+            if route = .store then
+              isStore := true
+              storeCalls := storeCalls + 1
+          per := per ++ [gi]
+          if isStore then storeInst := storeInst ++ [i]
+          else
+            if calls > 0 then d := noteRescue d i ns
+            for _ in [0:implG] do
+              let (d', r') := localGrant c burst rate r s l d i ns n
+              d := d'; r := r'
+        let sumOn (xs : List Nat) := (storeInst.map fun i => xs[i]?.getD 0).sum
+        -- which store-path instance wins is schedule dependent: only their sum is determined
+        let perCmp := if sumOn per = sumOn implPer then
+            (List.range ninst).map fun i => if storeInst.contains i then implPer[i]?.getD 0 else per[i]?.getD 0
+          else per
+        let model := s!"{per.sum} {",".intercalate (perCmp.map toString)} {allFlags d.sys ninst} {tokDump c d.sys.store}"
+        if model ≠ impl then r := r.mismatch s.idx l.idx model impl
+        if storeInst.length > 0 && storeInst.length < ninst then r := r.addCover "t-cstorm-mixed-store-and-rescue"
+        if storeInst.length = 0 then r := r.addCover "t-cstorm-all-rescue"
+        if d.hypOk && storeCalls > 0 then
+          r := r.addCover "t-cstorm-store"
+          let mut specGrants := 0
+          for _ in [0:storeCalls] do
             let sp := d.bucket.allow rate burst sec n
             d := { d with bucket := sp.1 }
             if sp.2 then specGrants := specGrants + 1
-        r := r.addCover "t-callow"
-        let obsG := (l.obs.headD "?")
-        let model := if d.up then s!"{grants} {tokDump c d.sys.store}" else s!"{grants} {bits} {tokDump c d.sys.store}"
-        let implCmp := if d.up then joinSp (l.obs.take 1 ++ l.obs.drop 2) else impl
-        if model ≠ implCmp then r := r.mismatch s.idx l.idx model implCmp
-        if d.hypOk && d.up then
-          if allStore then r := r.addCover "t-callow-store"
-          if obsG ≠ toString specGrants then
-            r := r.violation s.idx l.idx s!"token: {m} concurrent requests n={n} now={sec} rate={rate} burst={burst}: spec grants {specGrants}, impl grants [{obsG}]"
-          match obsG.toNat? with
-          | some g =>
-            if g > 0 then
-              let mt := d.joint.add rate sec (g * n)
-              d := { d with joint := mt }
-              if mt.level > burst then
-                r := r.violation s.idx l.idx s!"token: joint grants exceed burst + rate*elapsed (rate={rate} burst={burst}): excess level {mt.level} > {burst} at now={sec}"
-          | none => r := r.violation s.idx l.idx s!"token: unreadable grant count [{impl}]"
-      | _, _, _ => r := r.mismatch s.idx l.idx "bad-op" (joinSp l.op)
+          if specGrants < storeCalls then r := r.addCover "t-cstorm-store-some-denied"
+          let obsG := sumOn implPer
+          if obsG ≠ specGrants then
+            r := r.violation s.idx l.idx s!"token: {storeCalls} concurrent requests (goroutines x calls over {storeInst.length} instances) n={n} now={sec} rate={rate} burst={burst}: ONE bucket grants {specGrants}, impl granted [{obsG}]"
+          let (d', r') := jointGrant burst rate r s l d sec (obsG * n)
+          d := d'; r := r'
+      | _, _, _, _ => r := r.mismatch s.idx l.idx "bad-op" (joinSp l.op)
+    | ["cmix", ns, ents] =>
+      let parsed : List (Option (Nat × Nat)) := (ents.splitOn ",").map fun e =>
+        match e.splitOn ":" with
+        | [a, b] => match a.toNat?, b.toNat? with
+          | some a, some b => some (a, b)
+          | _, _ => none
+        | _ => none
+      match ns.toNat?, parsed.all Option.isSome with
+      | some ns, true =>
+        let es : List (Nat × Nat) := parsed.filterMap id
+        let m := es.length
+        let sec := ns / nsPerSec
+        let clock := d.sys.store.clock
+        if d.hypOk && !timedOk ttl d.hist clock sec then
+          d := { d with hypOk := false }
+          r := r.addCover "t-hyp-broken"
+        d := { d with hist := (clock, sec) :: d.hist }
+        let obsBits := (l.obs.headD "").toList
+        let bitAt (q : Nat) : Bool := obsBits[q]? == some '1'
+        r := r.addCover "t-cmix"
+        -- the calls are serialised (by the store's script execution / the local limiter's mutex) in an order
+        -- the harness cannot see: the observation must be what SOME order produces
+        let runOrder (order : List Nat) : TDrv × List (Nat × Bool × Route × Bool) := Id.run do
+          let mut dd := d
+          let mut out : List (Nat × Bool × Route × Bool) := []
+          for q in order do
+            let (i, n) := es[q]?.getD (0, 0)
+            let (d', mOk, route, bnd) := tokAllow c dd i ns n (some (bitAt q))
+            dd := d'
+            out := out ++ [(q, mOk, route, bnd)]
+          return (dd, out)
+        let explains (res : TDrv × List (Nat × Bool × Route × Bool)) : Bool :=
+          res.2.all (fun (q, mOk, _, _) => mOk == bitAt q) &&
+            s!"{allFlags res.1.sys ninst} {tokDump c res.1.sys.store}" == joinSp (l.obs.drop 1)
+        let ident := List.range m
+        let orders := if m ≤ 6 then perms ident else [ident]
+        let found := orders.find? fun o => explains (runOrder o)
+        let chosen := runOrder (found.getD ident)
+        if found.isNone then
+          let bits := String.ofList ((List.range m).map fun q =>
+            match chosen.2.find? (fun x => x.1 == q) with
+            | some (_, mOk, _, _) => if mOk then '1' else '0'
+            | none => '?')
+          r := r.mismatch s.idx l.idx s!"{bits} {allFlags chosen.1.sys ninst} {tokDump c chosen.1.sys.store} (or another serialisation)" impl
+        else if found ≠ some ident then r := r.addCover "t-cmix-explained-by-other-order"
+        let dBefore := d
+        d := chosen.1
+        for (q, _, route, bnd) in chosen.2 do
+          let (i, n) := es[q]?.getD (0, 0)
+          if bnd then
+            r := r.addCover "t-rescue-float-boundary"
+            d := { d with slack := fun j => if j = i then d.slack i + 1 else d.slack j }
+          if route = .rescue then d := noteRescue d i ns
+          if route = .rescue && bitAt q then
+            let (d', r') := localGrant c burst rate r s l d i ns n
+            d := d'; r := r'
+        -- monitor: the requests that reached the store must be the decisions of ONE bucket in some order
+        let storeQs := (chosen.2.filter fun x => x.2.2.1 = .store).map (·.1)
+        if d.hypOk && storeQs.length > 0 then
+          r := r.addCover "t-cmix-store"
+          let runSpec (order : List Nat) : Spec.Bucket × Bool := Id.run do
+            let mut b := dBefore.bucket
+            let mut okAll := true
+            for q in order do
+              let sp := b.allow rate burst sec ((es[q]?.getD (0, 0)).2)
+              b := sp.1
+              if sp.2 ≠ bitAt q then okAll := false
+            return (b, okAll)
+          let sOrders := if storeQs.length ≤ 6 then perms storeQs else [storeQs]
+          match sOrders.find? fun o => (runSpec o).2 with
+          | some o => d := { d with bucket := (runSpec o).1 }
+          | none =>
+            d := { d with bucket := (runSpec storeQs).1 }
+            let reqs := joinSp (storeQs.map fun q => s!"n={(es[q]?.getD (0, 0)).2}:{if bitAt q then "ok" else "no"}")
+            r := r.violation s.idx l.idx s!"token: concurrent requests now={sec} rate={rate} burst={burst} [{reqs}]: no serialisation on ONE bucket holding {dBefore.bucket.filled rate burst sec} gives these decisions"
+          let granted := (storeQs.map fun q => if bitAt q then (es[q]?.getD (0, 0)).2 else 0).sum
+          let (d', r') := jointGrant burst rate r s l d sec granted
+          d := d'; r := r'
+      | _, _ => r := r.mismatch s.idx l.idx "bad-op" (joinSp l.op)
+    | _ => r := r.mismatch s.idx l.idx "bad-op" (joinSp l.op)
+  return r
+
+/-! ### token sections with negative arguments (store path, one limiter, keys never expire) -/
+
+def runTokenZ (r : Report) (s : Section) : Report := Id.run do
+  let rate := kvInt s.cfg "rate" 1
+  let burst := kvInt s.cfg "burst" 1
+  let mut b : ZBucket := ⟨none, none⟩
+  let mut r := r
+  if rate < 0 then r := r.addCover "z-sec-rate-negative"
+  if burst < 0 then r := r.addCover "z-sec-burst-negative"
+  for l in s.lines do
+    r := { r with ops := r.ops + 1 }
+    let impl := joinSp l.obs
+    match l.op with
+    | ["allow", ns, n] =>
+      match ns.toInt?, n.toInt? with
+      | some ns, some n =>
+        if rate = 0 then r := r.mismatch s.idx l.idx "no tokenz section with rate 0 (the constructor panics)" impl
+        else
+          let res := tokenScriptZ rate burst (ns / 1000000000) n b
+          b := res.1
+          let ttl := ttlZ rate burst * 1000
+          let model := s!"{if res.2 then "ok" else "no"} a=1 tok={b.tok.getD 0}:{ttl} ts={b.ts.getD 0}:{ttl}"
+          if model ≠ impl then r := r.mismatch s.idx l.idx model impl
+          if n < 0 then r := r.addCover (if res.2 then "z-negative-n-granted-and-refunded" else "z-negative-n-denied")
+          if (b.tok.getD 0) > burst then r := r.addCover "z-stored-tokens-above-capacity"
+          if (b.tok.getD 0) < 0 then r := r.addCover "z-stored-tokens-negative"
+      | _, _ => r := r.mismatch s.idx l.idx "bad-op" (joinSp l.op)
     | _ => r := r.mismatch s.idx l.idx "bad-op" (joinSp l.op)
   return r
 
@@ -298,6 +729,7 @@ def runSection (r : Report) (s : Section) : Report :=
   match kv? s.cfg "kind" with
   | some "period" => runPeriod r s
   | some "token" => runToken r s
+  | some "tokenz" => runTokenZ r s
   | _ => r.mismatch s.idx 0 "bad-section" (joinSp s.cfg)
 
 def driver (secs : List Section) : Report :=
